@@ -18,6 +18,8 @@ func TestVerifSim(t *testing.T) {
 		vs.WorkerMain(t, "exec-sim", "I", runI)
 	case "M":
 		vs.WorkerMain(t, "exec-sim", "M", runM)
+	case "Y":
+		vs.WorkerMain(t, "exec-sim", "Y", runY)
 	case "X":
 		vs.WorkerMain(t, "race-sim", "X", runX)
 	case "R":
